@@ -41,6 +41,8 @@ pub struct Wire {
     pub read_err_once: Option<io::ErrorKind>,
     /// the write half answers Ok(0) to every non-empty write (a closed pipe in some transports)
     pub write_zero: bool,
+    /// answer Ok(0) to every non-empty write from the (n+1)-th write call on
+    pub write_zero_after: Option<u64>,
     /// what poll_close answers (the library need not call it at all): 0 = Ok, 1 = Err, 2 = Pending once
     pub close_mode: u8,
     pub close_polls: u64,
@@ -83,6 +85,7 @@ impl Wire {
             transient_kind: io::ErrorKind::ConnectionReset,
             read_err_once: None,
             write_zero: false,
+            write_zero_after: None,
             close_mode: 0,
             close_polls: 0,
             read_waker: None,
@@ -183,6 +186,11 @@ impl MockWrite {
         }
         if w.write_err {
             return Poll::Ready(Err(io::Error::new(w.write_err_kind, "mock")));
+        }
+        if let Some(n) = w.write_zero_after {
+            if w.writes > n {
+                w.write_zero = true;
+            }
         }
         if buf.is_empty() || w.write_zero {
             return Poll::Ready(Ok(0));
